@@ -56,6 +56,7 @@ LEVEL = "model_checking"
 ASSUMPTIONS = [
     "root configuration M1{A(cc, cf), B(A)}, M2{A}; values df1, df2 (+ s1, module in thorough); relative "
     "paths only; one csv file per value, one Excel file with one sheet per value",
+    "a module value is only bound to further names in a model where it has a live ModuleData",
     "first-use order: df2 is only offered once df1 occurred in the history (exact symmetry of the "
     "alphabet), name y only once x occurred (a restriction of the alphabet, stated here)",
     "creations on an occupied location (clash / alias / xlclash) are only offered while the reference "
@@ -321,6 +322,12 @@ def applicable(w, op, b):
             return False
         if k == "assign" and op["val"] == "mod" and w.nmods == 0:
             return False
+        if k == "assign" and op["val"] == "mod":
+            # a module object without a ModuleData in this model cannot be saved at all (it is pickled
+            # by name); binding one is outside the property (also when replaying stored cases)
+            lab = "mod%d" % w.nmods
+            if not any(rec["val"] == lab for rec in w.live[mname]):
+                return False
         if hard:
             return True
         if op.get("val") == "df2" and "df1" not in w.used:
@@ -831,33 +838,55 @@ def work_items(tier, seed):
                         nxt.extend(h + [op] for op in ops)
                     level = nxt
                 items.extend({"phase": ph, "prefix": h} for h in level)
+                if tier == "thorough" or os.environ.get("MXMC_AUDIT"):
+                    w0, _, _, _ = replay([], sc, b, check="none")
+                    for op in alphabet(w0, b):
+                        items.append({"phase": ph, "prefix": [op], "audit": True})
         finally:
             reset_world()
     # heavy items (long remaining depth) first, so that the pool drains evenly
-    items.sort(key=lambda it: -(BOUNDS[tier][it["phase"]]["depth"] - len(it["prefix"])))
+    items.sort(key=lambda it: -(BOUNDS[tier][it["phase"]]["depth"] - len(it["prefix"])
+                                - (0.5 if it.get("audit") else 0)))
     return items
 
 
+def run_audit(item, tier):
+    """Canon audit: explore below a 1-op prefix to depth-1 with and without state merging; the sets of
+    canonical states and of (state, op, clause) violation keys must coincide."""
+    b = BOUNDS[tier][item["phase"]]
+    counts = {}
+    extra = {}
+    with Scratch() as sc:
+        try:
+            c2, c3 = {}, {}
+            v_m, s_m, k_m = explore(item["prefix"], b["depth"] - 1, sc, b, True, c2, set(), None, do_wr=False)
+            v_u, s_u, k_u = explore(item["prefix"], b["depth"] - 1, sc, b, False, c3, set(), None, do_wr=False)
+        finally:
+            reset_world()
+    counts["audit_transitions_unmerged"] = c3.get("transitions", 0)
+    counts["audit_transitions_merged"] = c2.get("transitions", 0)
+    counts["audit_states"] = len(s_m)
+    mism = int(s_m != s_u) + int(k_m != k_u)
+    counts["audit_mismatch"] = mism
+    counts["audit_items"] = 1
+    if mism:
+        extra["canon_audit_mismatch_items"] = [item]
+    res = {"counts": counts, "outcomes": [], "samples": [], "violations": []}
+    if extra:
+        res["extra"] = extra
+    return res
+
+
 def run_item(item, tier):
+    if item.get("audit"):
+        return run_audit(item, tier)
     b = BOUNDS[tier][item["phase"]]
     counts = {}
     outcomes = set()
     samples = []
-    extra = {}
     with Scratch() as sc:
         try:
             viols, states, vkeys = explore(item["prefix"], b["depth"], sc, b, True, counts, outcomes, samples)
-            if tier == "thorough" or os.environ.get("MXMC_AUDIT"):
-                c2, c3 = {}, {}
-                v_m, s_m, k_m = explore(item["prefix"], b["depth"] - 1, sc, b, True, c2, set(), None, do_wr=False)
-                v_u, s_u, k_u = explore(item["prefix"], b["depth"] - 1, sc, b, False, c3, set(), None, do_wr=False)
-                counts["audit_transitions_unmerged"] = c3.get("transitions", 0)
-                counts["audit_transitions_merged"] = c2.get("transitions", 0)
-                mism = int(s_m != s_u) + int(k_m != k_u)
-                counts["audit_mismatch"] = mism
-                counts["audit_items"] = 1
-                if mism:
-                    extra["canon_audit_mismatch_items"] = [item]
         finally:
             reset_world()
     counts["violations_raw"] = len(viols)
@@ -865,10 +894,7 @@ def run_item(item, tier):
         viols = local_shrink(viols)
     for k in ("states", "transitions"):
         counts["%s[%s]" % (k, b["id"])] = counts.get(k, 0)
-    res = {"counts": counts, "outcomes": sorted(outcomes), "samples": samples, "violations": viols}
-    if extra:
-        res["extra"] = extra
-    return res
+    return {"counts": counts, "outcomes": sorted(outcomes), "samples": samples, "violations": viols}
 
 
 def check_case(case):
@@ -890,7 +916,9 @@ def check_case(case):
 
 VAL_COST = {"df1": 0, "zero": 0, "df2": 1, "s1": 2, "mod": 3}
 NAME_COST = {"x": 0, "y": 1}
-SITE_COST = {("M1", "A"): 0, ("M1", "B"): 1, ("M1", None): 2, ("M2", "A"): 3}
+SITE_COST = {("M1", "A"): 0, ("M1", "B"): 2, ("M1", None): 4, ("M2", "A"): 6}
+LOC_COST = {None: 0, "own": 0, "clash": 1, "xl": 2, "xlclash": 3, "xlnone": 4, "alias": 5}
+NEW_COST = {None: 0, "fresh": 1, "other": 2}
 
 
 def op_cost(op):
@@ -898,16 +926,14 @@ def op_cost(op):
     if "space" in op:
         c += SITE_COST.get((op["m"], op["space"]), 0)
     elif op.get("m") == "M2":
-        c += 3
-    if op.get("loc") not in (None, "own"):
-        c += 1
-    if op.get("new"):
-        c += 1
-    return c
+        c += 6
+    return c + LOC_COST.get(op.get("loc"), 0) + NEW_COST.get(op.get("new"), 0)
 
 
 def hist_cost(h):
-    return (len(h), sum(op_cost(op) for op in h))
+    """Well-founded order used by the canonicalising shrink: shorter first, then cheaper vocabulary
+    (compared op by op)."""
+    return (len(h), sum(op_cost(op) for op in h), tuple(op_cost(op) for op in h))
 
 
 def _subst(h, fn):
@@ -955,10 +981,35 @@ def _site(src, dst):
     return fn
 
 
+def _single_op_variants(op):
+    """Cheaper spellings of one op (site, name, value, location)."""
+    out = []
+    if op["op"] in ("new_pandas", "new_module", "assign", "del") and op.get("name") in ("x", "y"):
+        for (m, sp, n) in SLOTS:
+            if (m, sp, n) != (op["m"], op["space"], op["name"]):
+                out.append(dict(op, m=m, space=sp, name=n))
+    if op.get("val") in ("df2", "s1"):
+        out.append(dict(op, val="df1"))
+        if op["val"] == "s1":
+            out.append(dict(op, val="df2"))
+    if op.get("old") in ("df2", "s1"):
+        out.append(dict(op, old="df1"))
+    if op.get("loc") not in (None, "own"):
+        for loc in ("own", "clash", "xl"):
+            if loc != op["loc"]:
+                out.append(dict(op, loc=loc))
+    if op.get("new"):
+        out.append(dict(op, new=None))
+        if op["new"] == "other":
+            out.append(dict(op, new="fresh"))
+    return out
+
+
 def shrink_candidates(case):
-    """Smaller cases: one op removed, then global renamings towards the canonical vocabulary
-    (df1 before df2, x before y, M1.A before M1.B before M1 before M2.A).  The runner keeps a
-    candidate only if the same clause still fails."""
+    """Smaller cases: one op removed, then renamings towards the canonical vocabulary (df1 before
+    df2, x before y, M1.A before M1.B before M1 before M2.A, own file before other locations), first
+    globally, then op by op.  Only candidates that are strictly smaller in ``hist_cost`` are proposed;
+    the runner keeps a candidate only if the same clause still fails."""
     h = case["history"]
     flag = {"write_read": True} if case.get("write_read") else {}
     for k in range(len(h) - 1, -1, -1):
@@ -967,12 +1018,20 @@ def shrink_candidates(case):
     fns = [_swap(("val", "old"), "df1", "df2"), _replace(("val", "old"), "df2", "df1"),
            _replace(("val", "old"), "s1", "df1"), _swap(("name",), "x", "y"), _replace(("name",), "y", "x"),
            _site(("M2", "A"), ("M1", "A")), _site(("M1", "B"), ("M1", "A")), _site(("M1", None), ("M1", "A")),
-           _site(("M2", "A"), ("M1", "B"))]
+           _site(("M2", "A"), ("M1", "B")), _replace(("loc",), "xl", "own"), _replace(("loc",), "xlnone", "own"),
+           _replace(("loc",), "xlnone", "xl")]
     seen = set()
+    cands = []
     for fn in fns:
         h2 = _subst(h, fn)
-        if h2 is None or h2 == h or hist_cost(h2) >= base:
-            continue
+        if h2 is not None:
+            cands.append(h2)
+    for k, op in enumerate(h):
+        for op2 in _single_op_variants(op):
+            cands.append(h[:k] + [op2] + h[k + 1:])
+    cands = [h2 for h2 in cands if h2 != h and hist_cost(h2) < base]
+    cands.sort(key=hist_cost)
+    for h2 in cands:
         key = jd(h2)
         if key in seen:
             continue
@@ -980,15 +1039,21 @@ def shrink_candidates(case):
         yield dict(flag, history=h2)
 
 
-def local_shrink(viols, budget_per=120):
-    """Shrink + canonicalise every violation inside the worker (memoised), dedupe."""
-    memo = {}
+_SHRINK_MEMO = {}
+
+
+def local_shrink(viols, budget_per=400):
+    """Shrink + canonicalise every violation inside the worker (memoised per process), dedupe."""
+    import itertools
+    memo = _SHRINK_MEMO
+    if len(memo) > 200000:
+        memo.clear()
 
     def failing(case, clause):
         key = jd(case)
         if key not in memo:
             try:
-                memo[key] = check_case(case)
+                memo[key] = [v for v in check_case(case)]
             except Exception:
                 memo[key] = []
         return [v for v in memo[key] if v["clause"] == clause]
@@ -1002,6 +1067,21 @@ def local_shrink(viols, budget_per=120):
         if (clause, start) in final:
             cur = final[(clause, start)]
         else:
+            flag = {"write_read": True} if v["case"].get("write_read") else {}
+            h = v["case"]["history"]
+            # fast path: short subsequences that keep the last op (few distinct ones => memo hits)
+            found = False
+            for k in range(1, len(h)):
+                for idx in itertools.combinations(range(len(h) - 1), k - 1):
+                    cand = dict(flag, history=[h[i] for i in idx] + [h[-1]])
+                    hit = failing(cand, clause)
+                    if hit:
+                        cur = dict(hit[0])
+                        cur["case"] = cand
+                        found = True
+                        break
+                if found:
+                    break
             budget = budget_per
             changed = True
             while changed and budget > 0:
@@ -1126,7 +1206,8 @@ def coverage(agg, tier):
     }
     if "audit_items" in c:
         cov["canon_audit"] = "ok" if c.get("audit_mismatch", 0) == 0 else "mismatch"
-        cov["canon_audit_depth"] = "depth-1 of every phase"
+        cov["canon_audit_depth"] = "depth-1 of every phase, below every 1-op prefix"
+        cov["canon_audit_states"] = c.get("audit_states", 0)
         cov["canon_audit_transitions_unmerged"] = c.get("audit_transitions_unmerged", 0)
         cov["canon_audit_transitions_merged"] = c.get("audit_transitions_merged", 0)
     return cov
